@@ -231,6 +231,15 @@ def factorizations(n, maxprod, depth=3):
     return out
 
 
+def fine_dt_scenarios():
+    """time steps that are not multiples of 1e-4 ms (a refinement ladder dt0 / 2^k leaves the 4-decimal grid at once): integrate
+    must advance every step with exactly the caller's delta_t and return t_max // dt + 1 columns (seeded change C15_f rounds dt)"""
+    st = [("static", [(0, 0)], "a")]
+    R1 = [(1, 0, "v"), (0, 1, "HH_m"), (0, 0, "v")]
+    return [Scenario(R1, st, [], T_len=6, t_max=0.025, dt=0.00625), Scenario(R1, st, [], T_len=3, t_max=0.0125, dt=0.003125),
+            Scenario(R1, [], [], T_len=0, t_max=0.01, dt=0.00390625)]
+
+
 def scenarios(tier):
     R1 = [(1, 0, "v"), (0, 1, "HH_m"), (0, 0, "v")]
     # a record call repeated AFTER other recordings were added in between (and once immediately): one row per distinct request, in
@@ -268,6 +277,7 @@ def scenarios(tier):
         for t_max in (0.05, 0.075, 0.1, 0.15):
             S.append(Scenario(R1, st, [], T_len=4, t_max=t_max))
         S.append(Scenario(R1, st, [], T_len=4, t_max=0.3, dt=0.1))
+    S += fine_dt_scenarios()
     for cl in clamp_sets[1:]:
         S.append(Scenario(R1, [], cl, T_len=4, t_max=0.05))          # truncation of clamps
         S.append(Scenario(R1, [], cl, T_len=2, t_max=0.1))           # clamp shorter than the run: must refuse
